@@ -4,21 +4,27 @@
 //
 //	go test -c -tags "verif verif_overlay" -overlay <json> github.com/Comcast/rulio/core
 //
-// (the overlay maps <core dir>/zz_verif_c20_test.go to this file; nothing is written into /repo).
+// The overlay (written by checks/c20.py, nothing is written into the source tree) maps
+//
+//	<core dir>/zz_verif_c20_test.go -> this file
+//	<core dir>/breaker.go           -> a copy of the tree's own core/breaker.go in which every `time.Now()` reads
+//	                                   `c20Now()` (one textual substitution, done at check time)
+//
+// so the REAL Do() / Status() / Summary() / slide() run on clock readings chosen by the case, exactly.
 // Reads one JSON case per line from $VERIF_C20_IN, writes one JSON result per line to $VERIF_C20_OUT.
 //
 // kinds
 //
-//	slide        {interval, counts, gap}          b.slide(now) with an explicit now; reports counts
-//	breaker_seq  {limit, interval, counts?, gaps} the real Do() on a breaker whose `updated` is back-dated by
-//	                                             gaps[i] before call i; the exact elapsed time each slide saw
-//	                                             is read back from b.updated and reported (gaps_eff), so the
-//	                                             model can be run on exactly the same clock readings
-//	seq_explicit {limit, interval, counts?, times} slide() with explicit clock readings, admission logic repeated here
+//	slide        {interval, counts, gap}                     b.slide(now) with an explicit now; reports counts, updated
+//	breaker_seq  {limit, interval, counts?, updated?, times|gaps, ops?}
+//	                                                         ops[i] in "do" (default) | "status" | "summary" at clock
+//	                                                         reading base+times[i] (ns); reports the decision, counts and
+//	                                                         updated (relative to base) after every step
 package core
 
 import (
 	"bufio"
+	"bytes"
 	"encoding/json"
 	"fmt"
 	"os"
@@ -27,12 +33,39 @@ import (
 	"time"
 )
 
+// the virtual clock read by the substituted breaker.go
+var c20Clock struct {
+	on  bool
+	now time.Time
+}
+
+func c20Now() time.Time {
+	if c20Clock.on {
+		return c20Clock.now
+	}
+	return time.Now()
+}
+
+// numbers are decoded as json.Number: nanosecond clock readings up to 2^63-1 must not pass through a float64
+func c20int(v interface{}) int64 {
+	switch x := v.(type) {
+	case json.Number:
+		if n, err := x.Int64(); err == nil {
+			return n
+		}
+		f, _ := x.Float64()
+		return int64(f)
+	case float64:
+		return int64(x)
+	}
+	return 0
+}
+
 func c20ints(v interface{}) []int64 {
 	xs, _ := v.([]interface{})
 	out := make([]int64, 0, len(xs))
 	for _, x := range xs {
-		f, _ := x.(float64)
-		out = append(out, int64(f))
+		out = append(out, c20int(x))
 	}
 	return out
 }
@@ -53,7 +86,9 @@ func c20safe(f func() map[string]interface{}) (out map[string]interface{}) {
 
 func c20case(c map[string]interface{}) map[string]interface{} {
 	kind, _ := c["kind"].(string)
-	num := func(k string) int64 { f, _ := c[k].(float64); return int64(f) }
+	num := func(k string) int64 { return c20int(c[k]) }
+	base := time.Unix(1700000000, 0)
+	defer func() { c20Clock.on = false }()
 	switch kind {
 	case "slide":
 		return c20safe(func() map[string]interface{} {
@@ -62,11 +97,10 @@ func c20case(c map[string]interface{}) map[string]interface{} {
 				return map[string]interface{}{"err": "new:" + err.Error()}
 			}
 			copy(b.counts, c20ints(c["counts"]))
-			base := time.Unix(1700000000, 0)
 			b.updated = base
 			now := base.Add(time.Duration(num("gap")))
 			b.slide(now)
-			return map[string]interface{}{"counts": append([]int64{}, b.counts...), "updated_is_now": b.updated.Equal(now), "len": len(b.counts), "ticks": b.ticks}
+			return map[string]interface{}{"counts": append([]int64{}, b.counts...), "updated": b.updated.Sub(base).Nanoseconds(), "len": len(b.counts), "ticks": b.ticks}
 		})
 	case "breaker_seq":
 		return c20safe(func() map[string]interface{} {
@@ -77,50 +111,49 @@ func c20case(c map[string]interface{}) map[string]interface{} {
 			if cs, ok := c["counts"]; ok {
 				copy(b.counts, c20ints(cs))
 			}
-			b.updated = time.Now()
-			var closed []bool
-			var counts [][]int64
-			var eff []int64
-			for _, d := range c20ints(c["gaps"]) {
-				prev := b.updated
-				b.updated = prev.Add(-time.Duration(d))
-				ok, _ := b.Do(nil)
-				eff = append(eff, d+b.updated.Sub(prev).Nanoseconds())
-				closed = append(closed, ok)
-				counts = append(counts, append([]int64{}, b.counts...))
+			if _, ok := c["updated"]; ok {
+				b.updated = base.Add(time.Duration(num("updated")))
 			}
-			return map[string]interface{}{"closed": closed, "counts": counts, "gaps_eff": eff, "ticks": b.ticks}
-		})
-	case "seq_explicit":
-		// explicit clock readings through slide(); the admission test and the increment of Do() are REPEATED here, so this
-		// kind ties sequences of slides only (used to validate a changed slide(), e.g. the proposed repair, against
-		// OB.slideFixed); the real Do() is exercised by breaker_seq
-		return c20safe(func() map[string]interface{} {
-			b, err := NewOutboundBreaker(num("limit"), time.Duration(num("interval")))
-			if err != nil {
-				return map[string]interface{}{"err": "new:" + err.Error()}
-			}
-			if cs, ok := c["counts"]; ok {
-				copy(b.counts, c20ints(cs))
-			}
-			base := time.Unix(1700000000, 0)
-			b.updated = base
-			var closed []bool
-			var counts [][]int64
-			for _, t := range c20ints(c["times"]) {
-				b.slide(base.Add(time.Duration(t)))
-				total := int64(0)
-				for _, n := range b.counts {
-					total += n
+			var times []int64
+			if _, ok := c["times"]; ok {
+				times = c20ints(c["times"])
+			} else {
+				t := int64(0)
+				for _, d := range c20ints(c["gaps"]) {
+					t += d
+					times = append(times, t)
 				}
-				ok := total < b.limit
-				if ok {
-					b.counts[0]++
+			}
+			ops, _ := c["ops"].([]interface{})
+			var closed []bool
+			var counts [][]int64
+			var updated []int64
+			c20Clock.on = true
+			for i, t := range times {
+				c20Clock.now = base.Add(time.Duration(t))
+				op := "do"
+				if i < len(ops) {
+					op, _ = ops[i].(string)
+				}
+				var ok bool
+				switch op {
+				case "status":
+					ok = b.Status().Closed
+				case "summary":
+					b.Summary()
+					total := int64(0)
+					for _, n := range b.counts {
+						total += n
+					}
+					ok = total < b.limit
+				default:
+					ok, _ = b.Do(nil)
 				}
 				closed = append(closed, ok)
 				counts = append(counts, append([]int64{}, b.counts...))
+				updated = append(updated, b.updated.Sub(base).Nanoseconds())
 			}
-			return map[string]interface{}{"closed": closed, "counts": counts}
+			return map[string]interface{}{"closed": closed, "counts": counts, "updated": updated, "ticks": b.ticks}
 		})
 	}
 	return map[string]interface{}{"err": "unknown kind " + kind}
@@ -148,7 +181,9 @@ func TestVerifC20(t *testing.T) {
 	for sc.Scan() {
 		var c map[string]interface{}
 		var res map[string]interface{}
-		if e := json.Unmarshal(sc.Bytes(), &c); e != nil {
+		dec := json.NewDecoder(bytes.NewReader(sc.Bytes()))
+		dec.UseNumber()
+		if e := dec.Decode(&c); e != nil {
 			res = map[string]interface{}{"err": "parse:" + e.Error()}
 		} else {
 			res = c20case(c)
